@@ -99,21 +99,22 @@ theorem flow_hooks_after_dispatch : Ebu.Flow.publishEpilogue = true := by decide
 /-- OBLIGATION: each of the two handler call sites sits in the `default` branch of a `select` on `ctx.Done()` (synchronous: `continue`; async goroutine: `return`) -/
 theorem flow_calls_guarded_by_ctx : Ebu.Flow.callsGuardedByCtx = true := by decide +kernel
 
-/-! ### KNOWN FINDING: the context check precedes the wait for a Sequential handler's mutex (M2) -/
+/-! ### cancellation under concurrency (M2): the wait for a Sequential handler's mutex -/
 
-/-- KNOWN FINDING (C08-sequential-wait-outlives-cancellation).  The cancellation theorems above are about one publishing
-goroutine at a time.  With two, a synchronous Sequential handler can be started after the context of its publish was
-cancelled: goroutine 1 has passed its context check and waits for the handler's mutex, context 1 is cancelled, goroutine 0
-leaves the handler – and goroutine 1's next step enters it with the event of the cancelled publish.  M2 transcribes the
-code here (the `.lock` step does not look at the context again); the same history is replayed on the real code by the
-`seqcancel` witness. -/
-theorem sequential_wait_outlives_cancellation :
-    Ebu.Conc.ReachableT Ebu.Conc.CancelWitness.cwProgs Ebu.Conc.CancelWitness.cwState ∧
-    Ebu.Conc.CancelWitness.cwState.s.sh.cancelled = [1] ∧
-    (Ebu.Conc.CancelWitness.cwState.s.ths.map (fun th => th.frames.map (·.ctx))) = [[], [Ebu.Conc.Ctx.shared 1], []] ∧
-    Ebu.Conc.CancelWitness.cwState.stepAt 1 = some Ebu.Conc.CancelWitness.cwAfter ∧
-    Ebu.Conc.entriesOfReg 0 Ebu.Conc.CancelWitness.cwAfter.tr =
-      Ebu.Conc.entriesOfReg 0 Ebu.Conc.CancelWitness.cwState.tr ++ [(1, Ebu.Conc.Obs.enter 0 1 2 false)] :=
-  Ebu.Conc.CancelWitness.sequential_wait_outlives_cancellation
+/-- C08 under concurrency: a SYNCHRONOUS handler is never entered for a publish whose context is cancelled – also when
+its goroutine had to wait for the handler's Sequential mutex (the context is checked again once the mutex is held: the
+`fix:` commit 1feea95): every step that emits a synchronous entry is taken by a goroutine whose innermost publish
+context is live before the step -/
+theorem sync_entry_only_if_live (sh : Ebu.Conc.Shared) (th : Ebu.Conc.Thread) (o : Ebu.Conc.Out)
+    (h : Ebu.Conc.step sh th = some o) (rid ty v : Nat) (he : Ebu.Conc.Obs.enter rid ty v false ∈ o.obs) :
+    ∃ f fs, th.frames = f :: fs ∧ sh.live f.ctx = true :=
+  Ebu.Conc.CancelWitness.sync_entry_only_if_live sh th o h rid ty v he
+
+/-- … and on the schedule of the former defect (goroutine 1 has passed its context check and waits for the handler's
+mutex, context 1 is cancelled, goroutine 0 leaves the handler) goroutine 1's next step enters nothing: the handler is
+skipped.  The same history is replayed on the real code by the `seqcancel` scenario of the `stress` domain. -/
+theorem cancelled_waiter_is_skipped :
+    Ebu.Conc.entriesOfReg 0 Ebu.Conc.CancelWitness.cwAfter.tr = Ebu.Conc.entriesOfReg 0 Ebu.Conc.CancelWitness.cwState.tr :=
+  Ebu.Conc.CancelWitness.cancelled_waiter_is_skipped
 
 end Ebu.Props.C08
